@@ -37,12 +37,14 @@ enum Rel {
     Wrap,
     Low,
     ZeroLenInside,
+    /// ends exactly at 2^64
+    Top,
 }
 
 fn gen_range(rng: &mut Rng, areas: &[AreaView]) -> (u64, u64, Rel) {
     let a = rng.pick(areas).clone();
     let small = |rng: &mut Rng| -> u64 { *rng.pick(&[1u64, 2, 8, 16, 0x100, 0xfff, 0x1000, 0x1001, 0x4000]) };
-    let rel = match rng.below(24) {
+    let rel = match rng.below(25) {
         0 | 1 => Rel::Before,
         2 | 3 => Rel::AbutBefore,
         4 | 5 => Rel::AbutAfter,
@@ -54,6 +56,7 @@ fn gen_range(rng: &mut Rng, areas: &[AreaView]) -> (u64, u64, Rel) {
         18 | 19 | 20 => Rel::Far,
         21 => Rel::Wrap,
         22 => Rel::Low,
+        23 => Rel::Top,
         _ => Rel::ZeroLenInside,
     };
     let al = a.length.max(1);
@@ -88,6 +91,10 @@ fn gen_range(rng: &mut Rng, areas: &[AreaView]) -> (u64, u64, Rel) {
         Rel::Wrap => (u64::MAX - rng.below(0x100), 0x200 + rng.below(0x1000)),
         Rel::Low => (rng.below(0x2000), small(rng)),
         Rel::ZeroLenInside => (a.start + rng.below(al), 0),
+        Rel::Top => {
+            let l = small(rng);
+            (0u64.wrapping_sub(l), l)
+        }
     };
     (s, l, rel)
 }
